@@ -20,6 +20,7 @@ def build_cases(tier):
     # two selection items side by side (inline fragment next to a spread, two spreads, ...): abstract positions in the quick tier, all in thorough
     pairs = {"node": 2, "u": 2} if tier == "quick" else {"node": 2, "u": 2, "user": 2}
     ops += [o for o in corpus.enumerate_ops(pairs, rich=False, validate_ops=False) if "k2" in o.tags]
+    ops += corpus.fragment_overlap_ops()
     return ops
 
 
@@ -47,6 +48,11 @@ def main(tier):
     ops = ops + k2
     payload += [dict(schema=corpus.SCHEMA_K2, doc_text=o.doc_text, op_name=o.name, uses_var=False, kwargs_list=corpus.k2_kwargs(o), options={}, checks=["c05"],
                      bound=1 if tier == "quick" else 2, max_runs=100 if tier == "quick" else 400) for o in k2]
+    # plain leaf fields and aliases (incl. the name-variety fields: leading underscore, keywords, pydantic attribute names) with snake-casing OFF
+    snake_off = [o for o in ops[:nplain] if ({"field", "alias"} & set(o.tags)) and not ({"inline", "spread", "composite_field", "wrapper"} & set(o.tags))]
+    ops = ops + snake_off
+    payload += [dict(schema=corpus.SCHEMA_K, doc_text=o.doc_text, op_name=o.name, uses_var=o.uses_var, options={"convert_to_snake_case": False}, checks=["c05"], bound=1, max_runs=100) for o in snake_off]
+    n_before_snake_off = len(ops) - len(snake_off)
     results = pool.run_cases(opcheck.evaluate_op, payload, timeout=600, progress=500)
     stats = dict(operations=len(ops), invalid_ops=0, skipped_generation_failures=0, responses=0, corruptions=0, annotations=0)
     kinds = set()
@@ -61,6 +67,9 @@ def main(tier):
             feats = set(feats) | {t for t in o.tags if t.startswith(("wkind:", "shape:"))} | ({"scalar_cfg:type"} if configured else set())
             if "wkind:blb" in o.tags and not configured:
                 feats.add("unconfigured_scalar@" + next(t for t in o.tags if t.startswith("shape:")))
+        if i_ >= n_before_snake_off:
+            feats = set(feats) | {"cfg:snake_off"}
+            case_desc["options"] = {"convert_to_snake_case": False}
         if rep.triage:
             rep.seen(feats)
         if st != "ok":
